@@ -20,7 +20,8 @@ and, independent of all of the above, the documented glob syntax: `TokMatch`/`Ma
 `Legacy.*` is the code at the pinned commit: the writer chose the codec with `Path::extension` of the
 lower-cased key (so `dir/.gz` was written plain and then read through gzip), and the regex had no `(?s)`
 flag (so `?` and `**` did not match a key character `\n`). The un-prefixed definitions follow the current
-code (after the two `fix:` commits).
+code (after the two `fix:` commits); in particular `writerCodec` is the `ends_with` chain of the current
+`write_cloud_jsonl_vec`, branch by branch.
 
 Strings are `List Char` (Unicode scalar values, as Rust `char`).
 -/
@@ -240,13 +241,34 @@ def globMatch : Str → Str → Bool
 
 /-! ## keys: order, store, listing, expansion -/
 
-/-- Rust `String` order = lexicographic on UTF-8 bytes = lexicographic on scalar values -/
+/-- Rust `String` order = lexicographic on UTF-8 bytes = lexicographic on scalar values
+    (proved, not assumed: `strLe_is_utf8_byte_order`) -/
 def strLe : Str → Str → Bool
   | [], _ => true
   | _ :: _, [] => false
   | a :: as, b :: bs => decide (a.toNat < b.toNat) || (a == b && strLe as bs)
 
 def sortKeys (ks : List Str) : List Str := ks.mergeSort strLe
+
+/-! what "Rust `String` order" is, stated on bytes (specification only — `strLe` is what runs;
+    `Props/C19.lean::strLe_is_utf8_byte_order` proves the two equal for all strings) -/
+
+/-- UTF-8 encoding of a scalar value (RFC 3629), bytes as `Nat` -/
+def utf8 (c : Char) : List Nat :=
+  let n := c.toNat
+  if n < 0x80 then [n]
+  else if n < 0x800 then [0xC0 + n / 64, 0x80 + n % 64]
+  else if n < 0x10000 then [0xE0 + n / 4096, 0x80 + n / 64 % 64, 0x80 + n % 64]
+  else [0xF0 + n / 262144, 0x80 + n / 4096 % 64, 0x80 + n / 64 % 64, 0x80 + n % 64]
+
+def utf8s (s : Str) : List Nat := s.flatMap utf8
+
+/-- `<[u8] as Ord>::cmp(..) != Greater`: lexicographic on bytes, a proper prefix is smaller -/
+def bytesLe : List Nat → List Nat → Bool
+  | [], _ => true
+  | _ :: _, [] => false
+  | p :: ps, q :: qs => decide (p < q) || (p == q && bytesLe ps qs)
+
 
 /-- one bucket of `FakeObjectIO`: a map from key to content, as an association list with unique keys -/
 abbrev Store (β : Type) := List (Str × β)
@@ -274,6 +296,11 @@ def expandWith (toRe : Str → Str) (keys : List Str) (pat : Str) : Except Err (
 
 def expandGlob (keys : List Str) (pat : Str) : Except Err (List Str) := expandWith globToRegex keys pat
 
+/-- the argument of the one `list_objects` call of `expand_cloud_glob` (outer `none`: `Regex::new` failed
+    first and nothing is listed) -/
+def listedPrefix (toRe : Str → Str) (pat : Str) : Option (Option Str) :=
+  (parseRegex (toRe pat)).map (fun _ => literalPrefix pat)
+
 def Legacy.expandGlob (keys : List Str) (pat : Str) : Except Err (List Str) :=
   expandWith Legacy.globToRegex keys pat
 
@@ -300,17 +327,30 @@ def lower (s : Str) : Str := s.map lowerAscii
 
 def endsWith (s suf : Str) : Bool := suf.reverse.isPrefixOf s.reverse
 
-/-- the built-in registry of `compression.rs` in registration order: (codec, extensions) -/
+/-- the built-in registry of `compression.rs` (`CODEC_REGISTRY`) in registration order: (codec, extensions).
+    NOT trusted as written: `Props/C19.lean::registry_current` re-derives it on every run from
+    `IB.Generated.codecTable`, the table dumped from the running code by `c10.rs`. -/
 def registry : List (Codec × List Str) :=
   [(.gzip, [['.', 'g', 'z'], ['.', 'g', 'z', 'i', 'p']]),
    (.zstd, [['.', 'z', 's', 't'], ['.', 'z', 's', 't', 'd']]),
    (.bzip2, [['.', 'b', 'z', '2'], ['.', 'b', 'z', 'i', 'p', '2']]),
    (.xz, [['.', 'x', 'z']])]
 
-/-- `detect_from_extension`: first registered codec one of whose extensions is a suffix of the
-    lower-cased path -/
-def extCodec (key : Str) : Option Codec :=
-  (registry.find? (fun e => e.2.any (fun ext => endsWith (lower key) ext))).map (·.1)
+/-- `CompressionCodec::name()` of a registry row ↦ the codec; an unknown name has no model -/
+def codecOfName (n : String) : Option Codec :=
+  if n = "gzip" then some .gzip else if n = "zstd" then some .zstd
+  else if n = "bzip2" then some .bzip2 else if n = "xz" then some .xz else none
+
+/-- the rows `(name, extensions, magic)` of `compression::verif_codec_table()` as a model registry -/
+def registryOfTable (t : List (String × List String × Option (List Nat))) : Option (List (Codec × List Str)) :=
+  t.mapM (fun r => (codecOfName r.1).map (fun c => (c, r.2.1.map String.toList)))
+
+/-- `detect_from_extension` over a registry: first registered codec one of whose extensions is a suffix of
+    the lower-cased path -/
+def extCodecWith (reg : List (Codec × List Str)) (key : Str) : Option Codec :=
+  (reg.find? (fun e => e.2.any (fun ext => endsWith (lower key) ext))).map (·.1)
+
+def extCodec (key : Str) : Option Codec := extCodecWith registry key
 
 /-- `Path::new(s).file_name()` on Unix: the last component that is not empty and not `.`;
     `None` if there is none or it is `..` -/
@@ -349,13 +389,42 @@ def codecOfExtName (e : Str) : Option Codec :=
 def Legacy.writerCodec (key : Str) : Codec :=
   ((pathExtension (lower key)).bind codecOfExtName).getD .plain
 
-/-- current writer: `key_lower.rsplit_once('.')` — the text after the LAST `.` of the whole lower-cased key -/
+/-- the text after the LAST `.` of the whole string (`rsplit_once('.')`), `none` without a `.` -/
 def rsplitDotExt (s : Str) : Option Str :=
   let after := (s.reverse.takeWhile (· != '.')).reverse
   if after.length = s.length then none else some after
 
-def writerCodec (key : Str) : Codec :=
+/-- NOT the code: the codec named by the text after the last `.` of the lower-cased key. Kept because it is
+    the convenient form for reasoning; `Props/C19.lean::writerCodec_eq_lastDot` proves it equal to the
+    transliterated chain below for every key. -/
+def writerCodecByLastDot (key : Str) : Codec :=
   ((rsplitDotExt (lower key)).bind codecOfExtName).getD .plain
+
+/-- current writer, `write_cloud_jsonl_vec` (readers.rs), branch by branch:
+    ```
+    let key_lower = key.to_lowercase();
+    if key_lower.ends_with(".gz") || key_lower.ends_with(".gzip") { gzip }
+    else if key_lower.ends_with(".zst") || key_lower.ends_with(".zstd") { zstd }
+    else if key_lower.ends_with(".bz2") || key_lower.ends_with(".bzip2") { bzip2 }
+    else if key_lower.ends_with(".xz") { xz }
+    else { uncompressed }
+    ```
+    (all four compression features are enabled in the build under test, so no branch returns `InvalidInput`) -/
+def writerCodec (key : Str) : Codec :=
+  let keyLower := lower key
+  if endsWith keyLower ['.', 'g', 'z'] || endsWith keyLower ['.', 'g', 'z', 'i', 'p'] then .gzip
+  else if endsWith keyLower ['.', 'z', 's', 't'] || endsWith keyLower ['.', 'z', 's', 't', 'd'] then .zstd
+  else if endsWith keyLower ['.', 'b', 'z', '2'] || endsWith keyLower ['.', 'b', 'z', 'i', 'p', '2'] then .bzip2
+  else if endsWith keyLower ['.', 'x', 'z'] then .xz
+  else .plain
+
+/-- the same chain as data (condition alternatives per branch, in source order): what
+    `Props/C19.lean::writer_chain_is_table` compares with the registry dumped from the running code -/
+def writerChain : List (Codec × List Str) :=
+  [(.gzip, [['.', 'g', 'z'], ['.', 'g', 'z', 'i', 'p']]),
+   (.zstd, [['.', 'z', 's', 't'], ['.', 'z', 's', 't', 'd']]),
+   (.bzip2, [['.', 'b', 'z', '2'], ['.', 'b', 'z', 'i', 'p', '2']]),
+   (.xz, [['.', 'x', 'z']])]
 
 section io
 variable {R β : Type}
@@ -448,5 +517,44 @@ def readGlob (x : Ext R β) (s : Store β) (pat : Str) : Except Err (List R) :=
   | .ok ks => readAll x s ks
 
 end io
+
+/-! ## the serialiser / codec instance the driver EXECUTES the model with
+
+Records travel as opaque tokens `r<lower-case hex of their JSON>`; a compressed blob is the text behind a
+one-word signature that is not a scalar value. `Props/C19.lean::wireExt_lawful` proves that this instance
+satisfies the hypotheses of the round-trip theorems, so what the driver runs is an instance the theorems
+are about. -/
+
+def isHexChar (c : Char) : Bool := ('0' ≤ c ∧ c ≤ '9') || ('a' ≤ c ∧ c ≤ 'f')
+
+structure RecTok where
+  hex : Str
+  ok : hex.all isHexChar = true
+  deriving DecidableEq
+
+def codecTag : Codec → Nat
+  | .plain => 0 | .gzip => 0x110001 | .zstd => 0x110002 | .bzip2 => 0x110003 | .xz => 0x110004
+
+def wireText (b : List Nat) : Option Str :=
+  if b.all (· < 0x110000) then some (b.map Char.ofNat) else none
+
+def wireExt : Ext RecTok (List Nat) where
+  ser r := 'r' :: r.hex
+  de l := match l with
+    | 'r' :: h => if hh : h.all isHexChar = true then some ⟨h, hh⟩ else none
+    | _ => none
+  enc c t := match c with
+    | .plain => t.map Char.toNat
+    | c => codecTag c :: t.map Char.toNat
+  dec c b := match c with
+    | .plain => wireText b
+    | c => match b with
+      | tag :: rest => if tag = codecTag c then wireText rest else none
+      | [] => none
+  magic b := match b with
+    | tag :: _ =>
+      if tag = 0x110001 then some .gzip else if tag = 0x110002 then some .zstd
+      else if tag = 0x110003 then some .bzip2 else if tag = 0x110004 then some .xz else none
+    | [] => none
 
 end IB.CloudGlob
